@@ -55,16 +55,17 @@ ResultClauses(e, I, R, tag) ==
             /\ ~IsLeaf(I, t) => Report(C07_RollUp(I, R, t), e, "C07.rollup", <<t, tag>>)
             /\ (fwd /\ I.balance /\ FreeStart(I, t)) => Report(C08_Tight(I, R, t), e, "C08.tight", <<t, tag>>)
             /\ (fwd /\ I.balance /\ FreeStart(I, t) /\ ~EndFixed(I, t) /\ I.now <= I.pstart /\ HasRows(R, t))
-                  => Report(C08_Encoding(I, R, t), e, "C08.encoding", <<t, tag>>)
+                  \* (the encoded dates are whole minutes for every generated input: a part below the minute is an error)
+                  => Report(C08_Encoding(I, R, t) /\ ~R.sx[t] /\ ~R.ex[t], e, "C08.encoding", <<t, tag>>)
             /\ (fwd /\ I.balance /\ FreeStart(I, t) /\ ~EndFixed(I, t) /\ I.now <= I.pstart /\ NoLinks(I)
                   /\ QZero(Need(I, t)) /\ ~HasRows(R, t))
-                  => Report(C08_ZeroWork(I, R, t), e, "C08.encoding", <<t, "no work", tag>>)
+                  => Report(C08_ZeroWork(I, R, t) /\ ~R.sx[t], e, "C08.encoding", <<t, "no work", tag>>)
             /\ (~fwd /\ free) => Report(C09_Deadline(I, R, t), e, "C09.deadline", <<t, tag>>)
             /\ (~fwd /\ free) => \A p \in PreOf(I, t) \cap Tasks(I) :
                                       Report(C09_Dependency(I, R, p, t), e, "C09.dependency", <<t, tag>>)
             /\ (~fwd /\ free /\ I.balance /\ IsLeaf(I, t)) => Report(C09_LatePacked(I, R, t), e, "C09.latepacked", <<t, tag>>)
             /\ (~fwd /\ free /\ I.balance /\ SchedLeaf(I, t) /\ HasRows(R, t))
-                  => Report(C09_Encoding(I, R, t), e, "C09.encoding", <<t, tag>>)
+                  => Report(C09_Encoding(I, R, t) /\ ~R.sx[t] /\ ~R.ex[t], e, "C09.encoding", <<t, tag>>)
        /\ Report(C07_Wbs(I, R), e, "C07.wbs", tag)
        /\ (fwd /\ I.balance) => Report(C08_WbsOrder(I, R), e, "C08.wbsorder", tag)
 
